@@ -155,6 +155,7 @@ def run_scan(it, st):
     st.inputs['scan'] = 'decorated functions'
     found = decorated_functions(it.world)
     st.oblige('C13:cached-entry-points:scan-found-the-decorated-functions', len(found) >= 1, ('C13',), info={'decorated': [(q, d) for q, d, _, _ in found]})
+    C.frame_scan_obligations(it, st, 'C13:finders', ('C13', 'C12'))
     for q, d, path, node in found:
         if q in PURE_OK: ok = True; why = 'listed pure entry point'
         else:
@@ -190,7 +191,7 @@ def crosscheck(case, conc, exp):
     return {'status': 'agree'}
 def replay(case, ob, inputs):
     if case is None or case[0] == 'scan':
-        return {'confirmed': True, 'call': 'scan of cache-decorated functions', 'observed': repr(ob.get('info')), 'expected': 'only functions that do not read changing data are cached'}
+        return {'confirmed': False, 'call': 'scan of cache-decorated functions and of the finder / getter classes', 'observed': repr(ob.get('info')), 'expected': 'only functions that do not read changing data are cached'}
     if case[0] == 'order':
         import subprocess, sys, json
         prog = ("import io,contextlib,sys,json\n"
